@@ -507,7 +507,6 @@ using NodeList = std::vector<const Node*>;
 class Parser {
  public:
   Parser(const char* src, size_t n) : src_(src) {
-    toks_.reserve(n / 4 + 2);
     lex(src, n, toks_, pool_);
   }
 
